@@ -583,6 +583,25 @@ def r15_cumulative_days_evaluated(idx, r):
               msg=f"(values, result, side effect) = {bad[:2]}: the step lengths are not the successive differences, or the caller's list (the `cumulative days` held by the settings) is overwritten and the next resolution of the cycle history differences the differences")
 
 
+def r17_zero_tolerance_is_a_tolerance(idx, r):
+    """_setTightCouplerByInterfaceFunction builds a coupler whenever the settings define one for the interface's function: the numeric
+    entries (convergence tolerance, iteration cap) are values, not presence flags - 0.0 is an admitted tolerance (the schema takes it) that
+    can never be met, so such a coupler runs to the iteration cap.  Evaluating it for truth drops the coupler and the loop stops after one
+    iteration."""
+    from ..astutil import truthiness_uses
+    f = idx.func("armi.interfaces._setTightCouplerByInterfaceFunction")
+    env = single_assign_env(f.node)
+    nums = [n_ for n_, v in env.items() if any(k in norm(v) for k in ("'convergence'", '"convergence"', "tightCouplingMaxNumIters"))]
+    if not nums:
+        raise AnchorMissing("_setTightCouplerByInterfaceFunction: tolerance / iteration cap")
+    uses = truthiness_uses(f.node, set(nums))
+    r.require(not uses, "tight-coupler:numeric-entries-not-tested-for-truth", f, node=uses[0] if uses else None,
+              msg=f"`{norm(uses[0]) if uses else ''}` is evaluated for truth: a convergence tolerance of 0.0 counts as 'no coupling defined', the interface gets no coupler and the coupled iteration ends after one pass")
+    rets = [x for x in walk_local(f.node) if isinstance(x, ast.Return) and isinstance(x.value, ast.Call) and norm(x.value.func).endswith("TightCoupler")]
+    r.require(len(rets) == 1 and not [t for t, _p in path_conditions(f.node, rets[0]) if {y.id for y in ast.walk(t) if isinstance(y, ast.Name)} & set(env)], "tight-coupler:built-whenever-defined", f, node=rets[0] if rets else None,
+              msg="the coupler is only built under a condition on the values read from the settings entry")
+
+
 def r16_pairing(idx, r):
     from ..pairing import pairing_rule
     pairing_rule(idx, r, ["armi.operators", "armi.interfaces", "armi.utils"], 150)
@@ -624,3 +643,5 @@ def run(idx, chk):
                  necessary="step lengths of a cycle sum to availability x cycle length every time the history is resolved")
     chk.run_rule("R15.16", "arguments stand at the parameter they are named after; sibling calls forward the same pass-through parameters", lambda r: r16_pairing(idx, r), floor=1,
                  necessary="(cycle, node) reach every hook in that order; exclusions are forwarded")
+    chk.run_rule("R15.17", "a tight coupler is built whenever one is defined; its numeric entries are never tested for truth", lambda r: r17_zero_tolerance_is_a_tolerance(idx, r), floor=2,
+                 necessary="the coupled iteration of a node runs until every defined coupler has converged or the cap is reached")
